@@ -119,11 +119,11 @@ Qed.
 
 (* ---------- alloc ---------- *)
 Lemma stack_alloc_ok s live n :
-  sinv s live -> 0 <= n -> n + s_size c + s_align c + STACK_HEADER_SIZE <= two64 ->
+  sinv s live -> 0 <= n < two64 ->
   exists s' p, stack_alloc c s n = (s', p) /\
     ((p = 0 /\ s' = s) \/ (p <> 0 /\ sinv s' (mkblk p n :: live))).
 Proof.
-  intros Hi Hn Hw. unfold sinv in Hi.
+  intros Hi Hn. unfold sinv in Hi.
   destruct (chain_bound _ _ _ _ Hi) as (Hp0 & Hpc & Hcs & HF).
   destruct Hc as (HB & HS & Hpow & Hfit). pose proof Hsal_pos as HA. pose proof Hsal_pow2 as HP2.
   pose proof max_size_32 as H32.
@@ -135,10 +135,9 @@ Proof.
   destruct (align_forward_spec (s_base c + s_curr s + 8) (s_align c) HP2 ltac:(lia) ltac:(lia)) as [Hr Hm].
   set (r := align_forward (s_base c + s_curr s + 8) (s_align c)) in *.
   rewrite (w64_small (r - s_base c)) by lia.
-  rewrite (w64_small (r - s_base c + n)) by lia.
-  destruct (r - s_base c + n >? s_size c) eqn:E.
+  destruct ((w64 (r - s_base c + n) >? s_size c) || (w64 (r - s_base c + n) <? r - s_base c)) eqn:E.
   { exists s, 0. split; [reflexivity|]. left. auto. }
-  rewrite Z.gtb_ltb in E. apply Z.ltb_ge in E.
+  apply overflow_test_false in E; [|lia | lia]. destruct E as [Ew E]. rewrite Ew.
   rewrite (w64_small (r - 8)) by lia.
   eexists. exists r. split; [reflexivity|]. right. split; [lia|].
   unfold sinv. cbn [s_mem s_prev s_curr chain b_addr b_size].
@@ -178,13 +177,12 @@ Qed.
 
 (* ---------- realloc (newsize > 0) ---------- *)
 Lemma stack_realloc_ok s live i b n :
-  sinv s live -> nth_error live i = Some b -> 0 < n ->
-  n + s_size c + s_align c + STACK_HEADER_SIZE <= two64 ->
+  sinv s live -> nth_error live i = Some b -> 0 < n < two64 ->
   stack_realloc c s (b_addr b) n (b_size b) = None \/
   exists s' q, stack_realloc c s (b_addr b) n (b_size b) = Some (s', q) /\ s_mem s' = s_mem s /\
     ((q = 0 /\ s' = s) \/ (q = b_addr b /\ sinv s' (replace_nth i live (mkblk q n)))).
 Proof.
-  intros Hi Hn Hn0 Hw. unfold sinv in Hi.
+  intros Hi Hn Hn0. unfold sinv in Hi.
   destruct (live_addr_facts _ _ _ _ i b Hi Hn) as (Hnz & Hw64 & Hw8 & Hr).
   destruct Hc as (HB & HS & Hpow & Hfit). pose proof Hsal_pos as HA. rewrite hdr_size in *.
   unfold stack_realloc. apply Z.eqb_neq in Hnz. rewrite Hnz.
@@ -195,10 +193,9 @@ Proof.
     destruct live as [|x r]; cbn in Hn; [discriminate|]. inversion Hn; subst x.
     cbn [chain] in Hi. destruct Hi as (Ha & Hs & Hpc & Hcs & Hm & Hc0 & Hc8 & Hch).
     assert (E : (b_addr b - s_base c =? s_prev s) = true) by (apply Z.eqb_eq; lia). rewrite E.
-    rewrite (w64_small (b_addr b - s_base c + n)) by lia.
-    destruct (b_addr b - s_base c + n >? s_size c) eqn:E2.
+    destruct ((w64 (b_addr b - s_base c + n) >? s_size c) || (w64 (b_addr b - s_base c + n) <? b_addr b - s_base c)) eqn:E2.
     + exists s, 0. split; [reflexivity|]. split; [reflexivity|]. left. auto.
-    + rewrite Z.gtb_ltb in E2. apply Z.ltb_ge in E2.
+    + apply overflow_test_false in E2; [|lia | lia]. destruct E2 as [Ew E2]. rewrite Ew.
       eexists. exists (b_addr b). split; [reflexivity|]. split; [reflexivity|]. right.
       split; [reflexivity|]. unfold sinv. cbn [s_mem s_prev s_curr replace_nth chain b_addr b_size].
       repeat split; try assumption; lia.
@@ -216,11 +213,11 @@ Qed.
 
 (* ---------- one step ---------- *)
 Lemma sstep_ok s live o s' live' :
-  sinv s live -> sop_dom c o -> sstep c (s, live) o = Some (s', live') -> sinv s' live'.
+  sinv s live -> sop_usize o -> sstep c (s, live) o = Some (s', live') -> sinv s' live'.
 Proof.
   intros Hi Hd Hst. destruct o as [n | i | i n | | a v]; cbn [sstep] in Hst.
-  - destruct Hd as [Hn Hw].
-    destruct (stack_alloc_ok s live n Hi Hn Hw) as (s1 & p & Ha & Hcase). rewrite Ha in Hst.
+  - cbn [sop_usize] in Hd. unfold usize in Hd.
+    destruct (stack_alloc_ok s live n Hi Hd) as (s1 & p & Ha & Hcase). rewrite Ha in Hst.
     destruct Hcase as [[-> ->] | [Hp Hinv]].
     + cbn in Hst. inversion Hst; subst. exact Hi.
     + apply Z.eqb_neq in Hp. rewrite Hp in Hst. inversion Hst; subst. exact Hinv.
@@ -230,7 +227,7 @@ Proof.
       rewrite Hde in Hst. cbn in Hst. inversion Hst; subst. exact Hinv.
     + rewrite (stack_dealloc_older s x r k b Hi Hn) in Hst. discriminate.
   - destruct (nth_error live i) as [b|] eqn:Hn; [|inversion Hst; subst; exact Hi].
-    destruct Hd as [Hn0 Hw]. destruct (Z.eq_dec n 0) as [-> | Hnz].
+    cbn [sop_usize] in Hd. unfold usize in Hd. destruct (Z.eq_dec n 0) as [-> | Hnz].
     + (* realloc to 0 = dealloc *)
       pose proof Hi as Hi'. unfold sinv in Hi'.
       destruct (live_addr_facts _ _ _ _ i b Hi' Hn) as (Hbnz & _).
@@ -239,7 +236,7 @@ Proof.
       * inversion Hn; subst x. destruct (stack_dealloc_top s b r Hi) as (s1 & Hde & Hinv).
         rewrite Hde in Hst. cbn in Hst. inversion Hst; subst. exact Hinv.
       * rewrite (stack_dealloc_older s x r k b Hi Hn) in Hst. discriminate.
-    + destruct (stack_realloc_ok s live i b n Hi Hn ltac:(lia) Hw) as [Hnone | (s1 & q & Hre & _ & Hcase)].
+    + destruct (stack_realloc_ok s live i b n Hi Hn ltac:(lia)) as [Hnone | (s1 & q & Hre & _ & Hcase)].
       * rewrite Hnone in Hst. discriminate.
       * rewrite Hre in Hst. apply Z.eqb_neq in Hnz. rewrite Hnz in Hst.
         destruct Hcase as [[-> ->] | [-> Hinv]].
@@ -260,7 +257,7 @@ Proof.
 Qed.
 
 Lemma srun_ok ops : forall s live s' live',
-  sinv s live -> Forall (sop_dom c) ops -> srun c (s, live) ops = Some (s', live') -> sinv s' live'.
+  sinv s live -> Forall sop_usize ops -> srun c (s, live) ops = Some (s', live') -> sinv s' live'.
 Proof.
   induction ops as [|o r IH]; intros s live s' live' Hi Hd Hr; cbn [srun] in Hr.
   - inversion Hr; subst. exact Hi.
@@ -279,8 +276,8 @@ Qed.
 
 End Stack.
 
-Theorem stack_safe_partial_proof : forall c ops s live,
-  scfg_ok c -> Forall (sop_dom c) ops -> srun c (stack_init, []) ops = Some (s, live) ->
+Theorem stack_safe_proof : forall c ops s live,
+  scfg_ok c -> Forall sop_usize ops -> srun c (stack_init, []) ops = Some (s, live) ->
   good_blocks (s_base c) (s_size c) (s_align c) live /\
   (live = [] -> s_prev s = 0 /\ s_curr s = 0).
 Proof.
@@ -293,27 +290,25 @@ Qed.
 
 (* alloc immediately followed by dealloc gives back exactly the previous offsets *)
 Theorem stack_alloc_dealloc_restores_proof : forall c ops s live n s1 p,
-  scfg_ok c -> Forall (sop_dom c) ops -> srun c (stack_init, []) ops = Some (s, live) ->
-  0 <= n -> n + s_size c + s_align c + STACK_HEADER_SIZE <= two64 ->
+  scfg_ok c -> Forall sop_usize ops -> srun c (stack_init, []) ops = Some (s, live) ->
+  0 <= n < two64 ->
   stack_alloc c s n = (s1, p) -> p <> 0 ->
   exists s2, stack_dealloc c s1 p = Some s2 /\ s_prev s2 = s_prev s /\ s_curr s2 = s_curr s.
 Proof.
-  intros c ops s live n s1 p Hc Hd Hr Hn Hw Ha Hp.
+  intros c ops s live n s1 p Hc Hd Hr Hn Ha Hp.
   assert (Hi : sinv c s live).
   { eapply srun_ok; [exact Hc | | exact Hd | exact Hr]. unfold sinv, stack_init. cbn. auto. }
-  destruct (stack_alloc_ok c Hc s live n Hi Hn Hw) as (s1' & p' & Ha' & Hcase).
+  destruct (stack_alloc_ok c Hc s live n Hi Hn) as (s1' & p' & Ha' & Hcase).
   rewrite Ha in Ha'. inversion Ha'; subst s1' p'. clear Ha'.
   destruct Hcase as [[-> _] | [_ Hinv]]; [contradiction|].
   destruct (stack_dealloc_top c Hc s1 (mkblk p n) live Hinv) as (s2 & Hde & Hinv2).
   cbn [b_addr] in Hde. exists s2. split; [exact Hde|].
-  (* read the offsets back from the definition *)
   unfold stack_dealloc in Hde. apply Z.eqb_neq in Hp. rewrite Hp in Hde.
   destruct (w64 (p - s_base c) =? s_prev s1); [|discriminate]. inversion Hde; subst s2. cbn [s_prev s_curr].
   unfold sinv in Hinv. cbn [chain b_addr b_size] in Hinv.
   clear Hde Hinv2.
-  (* the header words written by alloc *)
   unfold stack_alloc in Ha. destruct (n =? 0); [inversion Ha; subst; rewrite Z.eqb_refl in Hp; discriminate|].
-  destruct (_ >? _) in Ha; [inversion Ha; subst; rewrite Z.eqb_refl in Hp; discriminate|].
+  destruct (_ || _) in Ha; [inversion Ha; subst; rewrite Z.eqb_refl in Hp; discriminate|].
   inversion Ha; subst s1 p. cbn [s_mem].
   set (h := w64 (_ - STACK_HEADER_SIZE)).
   pose proof max_size_32 as H32.
@@ -323,34 +318,9 @@ Proof.
   rewrite !Z.mod_small by lia. auto.
 Qed.
 
-(* ---------- refutation ---------- *)
 Definition swit_cfg : scfg := mkscfg 4096 64 8.
 Lemma swit_cfg_ok : scfg_ok swit_cfg.
 Proof.
   unfold scfg_ok, swit_cfg, two64. cbn. repeat split; try lia; try (vm_compute; discriminate).
   exists 3. split; [lia | reflexivity].
-Qed.
-
-(* stack(64,8): alloc(16); alloc(2^64-8): the second block is not inside the buffer *)
-Theorem stack_safe_refuted_proof : ~ stack_safe_full.
-Proof.
-  intros H.
-  pose (ops := [SAlloc 16; SAlloc (two64 - 8)]).
-  assert (Hu : Forall sop_usize ops).
-  { unfold ops, sop_usize, usize, two64. repeat constructor; lia. }
-  destruct (srun swit_cfg (stack_init, []) ops) as [[s live]|] eqn:E; [|vm_compute in E; discriminate].
-  specialize (H swit_cfg ops s live swit_cfg_ok Hu E).
-  vm_compute in E. inversion E; subst. clear E.
-  destruct H as (Hin & _ & _).
-  inversion Hin as [|x l H1 H2]; subst.
-  unfold blk_in, swit_cfg in H1. cbn in H1. lia.
-Qed.
-
-Lemma stack_wrap_overlap :
-  exists s live, srun swit_cfg (stack_init, []) [SAlloc 16; SAlloc (two64 - 8); SAlloc 8] = Some (s, live) /\
-                 ~ pairwise_disjoint live.
-Proof.
-  eexists. eexists. split; [vm_compute; reflexivity|].
-  cbn. unfold blk_disjoint. cbn. intros [H _]. inversion H as [|x l H1 H2]; subst.
-  cbn in H1. lia.
 Qed.
